@@ -280,6 +280,12 @@ def run(ctx):
             if filt:
                 o.violated(m, c0, f"Network.{mname} hands on only part of what it is given (`{txt(filt[0])[:70]}`): the edges that are filtered out never reach the working graph "
                                   "and are covered by nothing", shape_free=True)
+            elif conds and any(isinstance(t_, ast.Compare) and len(t_.ops) == 1 and isinstance(t_.ops[0], (ast.Lt, ast.Gt, ast.LtE, ast.GtE))
+                               and astx.names_in(t_.left) & set(ps) and astx.names_in(t_.comparators[0]) & set(ps)
+                               and not (astx.names_in(t_) - set(ps) - {"len", "min", "max"}) for t_, _ in conds):
+                bad_c = next(t_ for t_, _ in conds if isinstance(t_, ast.Compare) and isinstance(t_.ops[0], (ast.Lt, ast.Gt, ast.LtE, ast.GtE)))
+                o.violated(m, c0, f"Network.{mname} reaches `{txt(c0)[:40]}` only when `{txt(bad_c)}`: an (undirected) edge written with its endpoints the other way round "
+                                  "never reaches the working graph and is covered by nothing", shape_free=True)
             elif conds and not all(isinstance(t_, ast.Call) and txt(t_.func).endswith("has_edge") for t_, _ in conds):
                 o.undecided(f"`{txt(c0)}` in Network.{mname} is conditional (`{txt(conds[0][0])}`)", m, c0)
             elif not set(ps) <= argn:
@@ -377,6 +383,74 @@ def run(ctx):
     cl_loops = [s_ for s_ in lm.body if isinstance(s_, ast.For) and Cn and txt(scl.resolve(s_.iter, keep=[Cn])) in (f"range(len({Cn}))", f"range(0, len({Cn}))")]
     combs = [n for n in astx.walk_fn(lm.node) if isinstance(n, ast.Call) and prog.external(lm.module, n.func) == "itertools.combinations"]
     big = None   # canonical condition "this clique exceeds m0"
+    with ctx.obligation("C09.3", "the size bound the caller sets is the bound the cover uses: set_max_clique_size stores every admissible m0 (m0 >= 2)") as o:
+        sm = prog.method(prog.cls("EECC"), "set_max_clique_size")
+        if sm is None or len(sm.params) < 2:
+            o.undecided("EECC.set_max_clique_size not found")
+        else:
+            mp_ = sm.params[1]
+            stores = [n for n in astx.walk_fn(sm.node) if isinstance(n, (ast.Assign, ast.AnnAssign)) and n.value is not None
+                      and any(astx.self_attr(t_) == "_m0" for t_ in (n.targets if isinstance(n, ast.Assign) else [n.target]))]
+            if not stores:
+                o.violated(sm, sm.node, "set_max_clique_size does not store into `self._m0`, the bound limited_maximal_cliques reads: the caller's bound is ignored", shape_free=True)
+            elif len(stores) > 1:
+                o.undecided("set_max_clique_size stores the bound in more than one place", sm, stores[1])
+            else:
+                st_ = stores[0]
+                smp = astx.Parents(sm.node)
+                ssc = Scope(sm.node)
+                v_ = ssc.resolve(st_.value)
+                conds_ = rules.path_conditions(smp, st_)
+                if txt(v_) not in (mp_, f"int({mp_})"):
+                    tv_ = rules.term_of(v_)
+                    if not tm.has_opaque(tv_) and tm.compare(tv_, tm.sym(mp_)) == "different":
+                        o.violated(sm, st_, f"set_max_clique_size stores `{txt(v_)}`, not the bound it was given", shape_free=True)
+                    else:
+                        o.undecided(f"set_max_clique_size stores `{txt(v_)[:60]}`", sm, st_)
+                elif not conds_:
+                    o.holds(sm, st_, "the bound is stored unconditionally")
+                else:
+                    # admissible bounds are the integers >= 2 (an edge is a 2-clique): the store must be reached for every one of them
+                    verdict = "holds"
+                    for t_, pol_ in conds_:
+                        r_ = rules.compare_with_pivot(t_, lambda x: txt(x) == mp_)
+                        c_ = astx.const_value(r_[1]) if r_ else None
+                        if not r_ or not isinstance(c_, (int, float)) or isinstance(c_, bool):
+                            verdict = "undecided" if verdict == "holds" else verdict
+                            continue
+                        op_ = r_[0] if pol_ else {"<": ">=", "<=": ">", ">": "<=", ">=": "<", "==": "!=", "!=": "=="}.get(r_[0])
+                        ok_ = {">": c_ < 2, ">=": c_ <= 2, "!=": c_ < 2, "<": False, "<=": False, "==": False}.get(op_)
+                        if ok_ is False:
+                            verdict = ("violated", t_, op_, c_)
+                            break
+                        if ok_ is None:
+                            verdict = "undecided" if verdict == "holds" else verdict
+                    if isinstance(verdict, tuple):
+                        o.violated(sm, st_, f"the bound is stored only when `{mp_} {verdict[2]} {verdict[3]}`: an admissible bound outside that range (m0 = 2 is the smallest) is silently "
+                                            "ignored and the object keeps whatever bound it had - the cover then contains cliques larger than the bound the caller asked for", shape_free=True)
+                    elif verdict == "holds":
+                        o.holds(sm, st_, f"the bound is stored for every m0 >= 2 (guards: {[txt(t_) for t_, _ in conds_]})")
+                    else:
+                        o.undecided(f"the store of the bound is conditional (`{txt(conds_[0][0])[:60]}`)", sm, st_)
+
+    with ctx.obligation("C09.3", "every exit of limited_maximal_cliques comes after the size loop") as o:
+        # a shortcut exit (`if len(C) == 1: return [sorted(C[0])]`) hands back cliques that never met the `> m0` test
+        if len(cl_loops) == 1:
+            lp0 = cl_loops[0]
+            n_ret = 0
+            for r_ in [n for n in astx.walk_fn(lm.node) if isinstance(n, ast.Return)]:
+                n_ret += 1
+                if r_.lineno < lp0.lineno or parl.inside(r_, lp0):
+                    if r_.value is not None and isinstance(r_.value, (ast.List, ast.Tuple)) and not r_.value.elts:
+                        o.holds(lm, r_, "an early exit with an empty list (no cliques, nothing to bound)")
+                    else:
+                        o.violated(lm, r_, f"`return {txt(r_.value)[:50] if r_.value is not None else ''}` leaves limited_maximal_cliques before / inside the loop that compares each clique with m0: "
+                                           "a clique larger than the bound is returned whole", shape_free=True)
+            if n_ret:
+                o.holds(lm, lp0, f"{n_ret} return statement(s) examined against the size loop")
+        else:
+            o.undecided("size loop of limited_maximal_cliques not found", lm)
+
     with ctx.obligation("C09.3", "size bound: returned cliques passed `not size > m0` or are m0-subsets; decomposed cliques are excluded", floor=3) as o:
         if Cn is None or len(cl_loops) != 1 or len(combs) != 1 or not parl.inside(combs[0], cl_loops[0]):
             o.undecided("size guard / decomposition not found in limited_maximal_cliques", lm)
